@@ -7,7 +7,7 @@
    correspondence (complete enumeration of crash points, two-crash chains) and the recovery oracle,
    not yet by a Coq induction; concurrent flushes (periodic task vs. shutdown) are outside the model. *)
 From WB Require Import Base.Str Base.Json Model.Key Model.Store Model.Entry Model.Core Model.Codec Model.PersistConsts Model.Persist
-  Proofs.PersistFacts.
+  Proofs.CodecFacts Proofs.PersistFacts Proofs.ChainProof Model.Consts.
 
 (* a flush that dies at any of the 16 crash points before the selector flip leaves the selector and
    the four files of the active slot untouched *)
@@ -48,6 +48,32 @@ Print Assumptions C10_crash_after_flip_is_complete.
 
 (* non-vacuity: two flushes, the third dies with a torn checksum file; the directory still selects
    the second snapshot *)
+(* history level: once a flush has completed, along EVERY chain of requests, further flushes, crashes at any crash point
+   of any later flush, and kills, the directory holds -- complete and selected -- the snapshot of the last completed
+   flush, and a start recovers exactly that one (never an older snapshot, never store and registrations of different
+   snapshots); [flushable]: every state that gets flushed is within the file format *)
+Theorem C10_chain_invariant :
+  forall es s d l, holds d l -> flushable (s, d, l) es ->
+  let '(s', d', l') := grun (s, d, l) es in
+  holds d' l' /\ restart d' = (recovery l', d').
+Proof. exact chain_invariant. Qed.
+Print Assumptions C10_chain_invariant.
+
+(* a process that crashed or was killed comes up with the recovery of the last completed flush *)
+Theorem C10_crash_comes_up_with_last :
+  forall s d l e, holds d l ->
+  (match e with PFlush | PCrashInFlush _ => node_ok (strip_sys s_SYS (data s)) | _ => True end) ->
+  (match e with PCrashInFlush _ | PKillRestart => True | _ => False end) ->
+  let '(s', _, l') := gstep (s, d, l) e in s' = recovery l'.
+Proof. exact crash_comes_up_with_last. Qed.
+Print Assumptions C10_crash_comes_up_with_last.
+
+(* the ghost is only an observer: the chain is the persistent machine of Model/Persist.v *)
+Theorem C10_chain_is_the_machine :
+  forall st e, let '(s, d, _) := st in let '(s', d', _) := gstep st e in pstep (s, d) e = (s', d').
+Proof. exact gstep_pstep. Qed.
+Print Assumptions C10_chain_is_the_machine.
+
 Example C10_nonvacuous :
   let s1 := final init [OSet 1 [107] (JNum [49]) false] in
   let s2 := final s1 [OSet 1 [107] (JNum [50]) false] in
